@@ -9,7 +9,7 @@ CONSTANTS
   AddedIdx = {}
   EmitMod = 1
   EmitRem = 0
-  FixEnvPath = FALSE
-  FixRelProject = FALSE
+  FixEnvPath = TRUE
+  FixRelProject = TRUE
 CONSTRAINT Verdict
 CHECK_DEADLOCK FALSE
